@@ -111,7 +111,7 @@ ALIGN_TEXTS = ["go forward ten meters", "go forward", "go", "go backward two met
                "go  forward\tten\nmeters", "one two three"]
 
 
-def pick_grammar(rng, ctx, idx):
+def pick_grammar(rng, ctx, idx, valid_only=False):
     """returns list of script lines that set a grammar"""
     r = rng.random()
     data = os.path.join(sut.REPO, "tests", "data")
@@ -120,7 +120,7 @@ def pick_grammar(rng, ctx, idx):
     if r < 0.55:
         return ["jsgf " + hx("#JSGF V1.0;\ngrammar g;\n" + rand_jsgf(rng) + "\n")], "jsgf-rand"
     if r < 0.62:
-        return ["fsgfile " + os.path.join(data, rng.choice(["goforward.fsg", "goforward2.fsg", "goforward3.fsg"]))], "fsg-file"
+        return ["fsgfile " + os.path.join(data, rng.choice(["goforward.fsg", "goforward2.fsg"] + ([] if valid_only else ["goforward3.fsg"])))], "fsg-file"
     if r < 0.80:
         return ["fsgtext " + hx(rand_fsg_text(rng))], "fsg-rand"
     return ["align " + hx(rng.choice(ALIGN_TEXTS))], "align"
@@ -232,15 +232,16 @@ def make_case(rng, ctx, idx, want, opts=None):
     return eid, s
 
 
-def run_cases(ctx, drv, cases, jobs=14, per_proc=12, timeout=600, leaks=False):
+def run_cases(ctx, drv, cases, jobs=14, per_proc=12, timeout=600, leaks=False, split_on_mark=None):
     """Execute cases on the real decoder, `per_proc` per harness process, processes in parallel.
     Returns (chunks, crashes): chunks = [(eid, [trace lines])], crashes = [(eid, why)]."""
     batches = [cases[i:i + per_proc] for i in range(0, len(cases), per_proc)]
 
     def split(path, n_expected):
         chunks, cur = [], None
+        start = '{"e":"Header"' if not split_on_mark else '{"e":"Mark","v":"%s"' % split_on_mark
         for ln in open(path):
-            if ln.startswith('{"e":"Header"'):
+            if ln.startswith(start):
                 cur = []
                 chunks.append(cur)
             if cur is not None:
